@@ -57,9 +57,12 @@ func NewPoller(d Diode, opts ...PollerConfigOption) *Poller {
 // If the context is done, then nil will be returned.
 func (p *Poller) Next() GenericDataType {
 	for {
+		// Sample the context first: everything written before the cancellation
+		// is then guaranteed to be seen by the TryNext below.
+		done := p.isDone()
 		data, ok := p.Diode.TryNext()
 		if !ok {
-			if p.isDone() {
+			if done {
 				return nil
 			}
 
